@@ -9,7 +9,8 @@ Three families of cases on the REAL FileStorage (DESIGN 4 C08):
               close/reopen, after a re-scan without index); the packed file is C07-equivalent to the
               unpacked one kept in Data.fs.old; readers saw only consistent pairs and no error unless
               their snapshot is at or before the pack time (then only ReadConflictError); only the
-              allowed exceptions anywhere; the storage stays usable.
+              allowed exceptions anywhere; the storage stays usable.  Every fifth schedule is DIRECTED
+              (a commit is voted while the packer copies a body and finished before it comes back).
               [I] the packer's / committers' lock-event pattern is an accepted action sequence of
               ZodbModel/PackProto (Drivers/PackProto.lean) ending in the same stored log.
  (b) crash  — record the raw fs events of a pack (with / without a commit in the middle, keep_old
@@ -251,6 +252,19 @@ def pack_time(P, info, clk):
 # ------------------------------------------------------------------------------------------------
 # (a) scheduler runs
 # ------------------------------------------------------------------------------------------------
+def no_hardlinks(rec):
+    """simulate a file system without hard links: os.link below the recorder's root raises EPERM
+    (the pack then takes its two-rename fallback)"""
+    import errno
+    orig = rec.before
+
+    def before(ev):
+        if ev[0] == 'link':
+            raise OSError(errno.EPERM, 'hard links not supported (simulated)')
+        return orig(ev)
+    rec.before = before
+
+
 class Note:
     """markers the threads put into the scheduler's event log (thread, 'note', text)"""
 
@@ -674,6 +688,8 @@ def record_pack(P, tmp):
         init = vfs.snapshot(root)
         rec.events.clear()
         committed = []
+        if P.get('nolink'):
+            no_hardlinks(rec)
 
         def packer():
             try:
@@ -822,7 +838,7 @@ def crash_oracle(R, U, Pk, k, D, problem):
 def crash_signature(R, k):
     first, second = classify_events(R)
     if first is not None and second is not None and first < k <= second:
-        return 'C08:crash-between-renames'
+        return 'C08:crash-between-renames' + (':no-hardlinks' if R['P'].get('nolink') else '')
     if k <= first:
         last = R['events'][k - 1] if k else ('start',)
         return 'C08:crash-before-swap:%s' % ('pack-write' if last[0] in ('write', 'create') and
@@ -909,6 +925,13 @@ def run_crash_scenario(ck, P, tier_thorough, only_cut=None):
     U, Pk = crash_references(R, ck.tmp)
     first, second = classify_events(R)
     evs = R['events']
+    # the packed file keeps every transaction after the pack time, identically and in order, and adds none
+    if [t for t in Pk if t[0] > R['T']] != [t for t in U if t[0] > R['T']] or \
+            [t[0] for t in Pk if t[0] not in set(u[0] for u in U)]:
+        ck.violation('C08:packed-differs-after-packtime',
+                     'the packed file does not hold exactly the transactions after the pack time of the unpacked '
+                     'one: %s vs %s' % ([t[0].hex()[-6:] for t in Pk], [t[0].hex()[-6:] for t in U]),
+                     dict(kind='crash', P=P))
     cuts = []
     if only_cut is not None:
         cuts = [tuple(only_cut)]
@@ -1003,6 +1026,8 @@ def fault_run(P, tmp, fail_at, partial=0):
         U = txn_dump(fs)
         rec.events.clear()
         rec.nmut = 0
+        if P.get('nolink'):
+            no_hardlinks(rec)
         rec.fail_at, rec.fail_partial = fail_at, partial
         try:
             db.pack(t)
@@ -1150,13 +1175,13 @@ def gen_crash_params(rng, i):
                 commits=[2, 0, 3, 1, 2][i % 5], keep_old=bool(i % 2 == 0), prepack=int(i % 3 == 1),
                 reopen=int(i % 4 == 2), ptime=['mid', 'mid', 'now', 'mid', 'future'][i % 5],
                 pre=rng.choice([1, 2, 3]), post=rng.choice([1, 2, 3]), gsize=rng.choice([1, 3, 400]),
-                pad=rng.choice([0, 0, 3000]))
+                pad=rng.choice([0, 0, 3000]), nolink=int(i % 8 == 7))
 
 
 def gen_fault_params(rng, i):
     return dict(keep_old=bool(i % 2 == 0), prepack=int(i % 2 == 0 or i % 3 == 0), reopen=int(i % 3 == 1),
                 ptime=['mid', 'now'][i % 2], pre=rng.choice([1, 2]), post=rng.choice([1, 2, 3]),
-                gsize=rng.choice([1, 3]))
+                gsize=rng.choice([1, 3]), nolink=int(i % 4 == 3))
 
 
 # ------------------------------------------------------------------------------------------------
@@ -1519,9 +1544,9 @@ def main(argv=None):
         cases = [rp['case']]
     else:
         cases = load_corpus()
-        nsched = 150 if not ck.thorough else 5000
-        ncrash = 6 if not ck.thorough else 100
-        nfault = 3 if not ck.thorough else 24
+        nsched = 250 if not ck.thorough else 5000
+        ncrash = 8 if not ck.thorough else 100
+        nfault = 4 if not ck.thorough else 24
         cases += [dict(kind='sched', P=gen_sched_params(ck.rng, i)) for i in range(nsched)]
         cases += [dict(kind='crash', P=gen_crash_params(ck.rng, i), thorough=bool(ck.thorough and i < 40))
                   for i in range(ncrash)]
@@ -1541,7 +1566,7 @@ def main(argv=None):
     check_proto_batch(ck, ck.proto_batch)
     check_disk_batch(ck)
     ck.finish(
-        rule='(a) seeded schedules of 1 packer + 1-2 committers (+ undo) + reader (+ second packer) at '
+        rule='(a) seeded (every fifth: directed vote-during-copy) schedules of 1 packer + 1-2 committers (+ undo) + reader (+ second packer) at '
              'lock-operation and raw file-I/O granularity, varying stickiness, pack time (mid / now / future), '
              'keep_old, read yield points; non-trivial = a commit returned between the packer\'s first '
              'acquisition of the commit lock and the swap (during copyRest).  (b) every event boundary (+ sampled, '
@@ -1558,7 +1583,7 @@ def main(argv=None):
                      'what a pack may drop at or before the pack time is C07\'s subject: PackProto keeps any '
                      'sublist of the transactions below packpos',
                      'readers read objects that stay reachable; snapshot semantics of values are C02\'s subject',
-                     'swap via os.link + os.replace (6838ec8); the two-rename fallback (no hard links) keeps the '
+                     'swap via os.link + os.replace (repaired in /repo while this check was built); the two-rename fallback (no hard links) keeps the '
                      'between-renames window: Props.C08.pack_crash_between_renames_loses_data'])
 
 
